@@ -50,3 +50,29 @@ Definition law_amo (c : command) (b : bool) (outs : list dout) (enq : list reque
   (b || bool_decide (enq = [])) &&
   bool_decide (present_end = final_present b outs) &&
   bool_decide (retried = count_out DErr outs + count_out DErrApplied outs)%nat.
+
+(* ---------- CLI under faults: evaluated on what the real CLI did against the
+   scripted API server ---------- *)
+Fixpoint answers (n : nat) (script : list cout) : list cout :=
+  match n with
+  | O => []
+  | S k => hd COk script :: answers k (tl script)
+  end.
+
+(* over the whole invocation: at most ONE Command object is left behind, at most one
+   create succeeded, a create error is returned to the user, success means exactly one
+   Command, a failed GET means no POST, and every Command left behind is exactly the
+   one naming the object the GET returned, with the verb's action *)
+Definition law_cli_invocation (i : inv) (ok : bool) (gets posts : nat) (new : list command) : bool :=
+  let outs := answers posts (i_script i) in
+  bool_decide (length new <= 1)%nat &&
+  bool_decide (length (filter succeeds outs) <= 1)%nat &&
+  bool_decide (length new = length (filter persists outs)) &&
+  implb (existsb (fun o => negb (succeeds o)) outs) (negb ok) &&
+  implb ok (bool_decide (length new = 1%nat) && bool_decide (i_get i = GOk)) &&
+  implb (negb (bool_decide (i_get i = GOk))) (bool_decide (posts = 0%nat) && negb ok) &&
+  forallb (fun c => bool_decide ([c] = cli_create (i_verb i) (i_ns i) (i_target i))) new.
+
+(* end to end: the controllers execute exactly the Commands left behind, each once *)
+Definition law_e2e (news : list (list command)) (reqs : list (Z * Z * Z * Z)) : bool :=
+  bool_decide (reqs = flat_map (map ctl_req) news).
